@@ -21,7 +21,10 @@ EXPLANATION = (
     "from a schema parameter name. r6: every generated reference (path call, method call) names a generated definition for "
     "every name - including the `as_<variant>()` methods, whose definition is the derive macro's own naming function applied "
     "to the generated variant name. r7: the two scalar-type mapping tables agree with each other and with FieldValue's "
-    "accessor signatures.")
+    "accessor signatures. r8: both type-mapping helpers are evaluated (quote!'s push_* calls modelled as a token list) on "
+    "every parameter type up to list depth 2; the declared type's tokens are parsed and the conversion expression's tokens "
+    "are typed as a method chain over FieldValue's accessor signatures: both must equal the Rust type the Trustfall type "
+    "denotes, else the generated `let`/signature is an E0308.")
 ASSUMPTIONS = [
     "names are GraphQL names ([_A-Za-z][_0-9A-Za-z]*); the helpers treat characters only by class (upper/lower/underscore/other), "
     "so strings up to the bound over one representative per class (two for letters) cover their behaviour",
@@ -274,6 +277,204 @@ def scalar_tables(C, R):
     return out
 
 
+# ---- r8: declared parameter type = type of the conversion expression, for every parameter type -------------------------
+class TS(list):
+    """A proc_macro2::TokenStream built by quote!: a list of tokens; a delimited group is ("group", delim, TS)."""
+
+
+PUNCT = {"lt": "<", "gt": ">", "and": "&", "dot": ".", "comma": ",", "colon2": "::", "colon": ":", "or": "|", "semi": ";", "eq": "=",
+         "fat_arrow": "=>", "bang": "!", "star": "*", "rarrow": "->", "pound": "#", "question": "?", "underscore": "_", "or_or": "||", "and_and": "&&"}
+
+
+def quote_intrinsics():
+    from tfv import stdmodel as M
+    I = M.intrinsics()
+    I.update(M.string_intrinsics())
+    d = A.deref
+    I["proc_macro2::TokenStream::new"] = lambda ip, n, a: TS()
+
+    def ts_of(ref):
+        v = d(ref)
+        if not isinstance(v, TS):
+            raise A.Unsupported("token stream expected, got %r" % (v,))
+        return v
+    I["quote::__private::push_ident"] = lambda ip, n, a: (ts_of(a[0]).append(d(a[1])), M.unit())[1]
+    for nm, sym in PUNCT.items():
+        I["quote::__private::push_" + nm] = (lambda sym: lambda ip, n, a: (ts_of(a[0]).append(sym), M.unit())[1])(sym)
+
+    def push_group(ip, n, a):
+        delim = d(a[1])
+        ts_of(a[0]).append(("group", getattr(delim, "variant", "?"), ts_of(a[2])))
+        return M.unit()
+    I["quote::__private::push_group"] = push_group
+
+    def parse(ip, n, a):      # quote! pushes literals (here: the expect() messages) by re-parsing their source text
+        src = d(a[1])
+        if not (isinstance(src, str) and src.startswith('"') and src.endswith('"')):
+            raise A.Unsupported("quote::__private::parse of %r" % (src,))
+        ts_of(a[0]).append(("lit", src))
+        return M.unit()
+    I["quote::__private::parse"] = parse
+
+    def to_tokens(ip, n, a):
+        v, s = d(a[0]), ts_of(a[1])
+        if isinstance(v, TS):
+            s.extend(v)
+        elif isinstance(v, str):
+            s.append(("lit", v))
+        else:
+            raise A.Unsupported("interpolation of %r" % (v,))
+        return M.unit()
+    I["quote::to_tokens::ToTokens::to_tokens"] = to_tokens
+    return I
+
+
+def parse_decl(ts):
+    """Token list of a Rust type -> nested tuple: ("Option", t) | ("Vec", t) | ("prim", name)."""
+    toks = list(ts)
+
+    def ty(i):
+        t = toks[i]
+        if t in ("Option", "Vec") and toks[i + 1] == "<":
+            inner, j = ty(i + 2)
+            if toks[j] != ">":
+                raise ValueError("expected >")
+            return (t, inner), j + 1
+        if t == "&":
+            inner, j = ty(i + 1)
+            return ("prim", "&" + inner[1]), j
+        if isinstance(t, str) and t.isidentifier():
+            return ("prim", t), i + 1
+        raise ValueError("unexpected token %r" % (t,))
+    r, j = ty(0)
+    if j != len(toks):
+        raise ValueError("trailing tokens")
+    return r
+
+
+def infer_expr(ts, accessors, env=None):
+    """Type of the conversion expression emitted by field_value_to_rust_type (a method chain with closures)."""
+    toks = list(ts)
+    env = env or {}
+    if toks and toks[0] == "|":                       # closure: | x | body   -> ("fn", param, body tokens)
+        return ("closure", toks[1], toks[3:])
+    if len(toks) == 1 and isinstance(toks[0], tuple) and toks[0][0] == "group" and toks[0][1] in ("Brace", "Parenthesis"):
+        return infer_expr(toks[0][2], accessors, env)
+    if not toks or not isinstance(toks[0], str):
+        raise ValueError("expression does not start with an identifier: %r" % (toks[:1],))
+    i = 0
+    # base: identifier(s) up to the first '.'
+    base = toks[0]
+    cur = env.get(base, ("FV?",) if base == "parameters" else None)
+    if base == "parameters":
+        cur = ("ParamMap",)
+    elif cur is None:
+        raise ValueError("unknown base %r" % (base,))
+    i = 1
+    while i < len(toks):
+        if toks[i] != ".":
+            raise ValueError("expected `.` at %r" % (toks[i],))
+        m = toks[i + 1]
+        grp = toks[i + 2]
+        if not (isinstance(grp, tuple) and grp[0] == "group"):
+            raise ValueError("expected call arguments after %s" % m)
+        args = grp[2]
+        i += 3
+        if cur == ("ParamMap",) and m == "get":
+            cur = ("Option", ("FV",))
+        elif m in ("expect", "unwrap", "unwrap_or_default") and cur[0] == "Option":
+            cur = cur[1]
+        elif cur == ("FV",) and m in accessors:
+            cur = accessors[m]
+        elif cur[0] == "Option" and m == "map":
+            c = infer_expr(args, accessors, env)
+            if c[0] != "closure":
+                raise ValueError("map expects a closure")
+            cur = ("Option", infer_expr(c[2], accessors, dict(env, **{c[1]: cur[1]})))
+        elif cur == ("Slice",) and m == "iter":
+            cur = ("Iter", ("FV",))
+        elif cur[0] == "Iter" and m == "map":
+            c = infer_expr(args, accessors, env)
+            if c[0] != "closure":
+                raise ValueError("map expects a closure")
+            cur = ("Iter", infer_expr(c[2], accessors, dict(env, **{c[1]: cur[1]})))
+        elif cur[0] == "Iter" and m == "collect":
+            cur = ("Vec", cur[1])
+        else:
+            raise ValueError("method %s on %r" % (m, cur))
+    return cur
+
+
+def spec_type(t):
+    """The Rust type a Trustfall parameter type denotes."""
+    nullable = not t.endswith("!")
+    core_ = t[:-1] if not nullable else t
+    if core_.startswith("["):
+        inner = ("Vec", spec_type(core_[1:-1]))
+    else:
+        inner = ("prim", {"Int": "i64", "String": "&str", "Float": "f64", "Boolean": "bool"}[core_])
+    return ("Option", inner) if nullable else inner
+
+
+def parameter_type_table(ctx, R, C, core):
+    R.rule("r8", "for every parameter type (4 scalars x list depth <= 2 x all nullability patterns): the declared Rust type is the type the "
+                 "Trustfall type denotes, and the generated conversion expression has exactly that type")
+    fd, fe = C.fn(SG + "util::trustfall_type_to_rust_type"), C.fn(SG + "util::field_value_to_rust_type")
+    if fd is None or fe is None:
+        R.fail("r8", "anchor", "-", "type mapping helpers not found")
+        return
+    FV = "trustfall_core::ir::value::FieldValue::"
+    accessors = {}
+    for acc in ("as_i64", "as_str", "as_f64", "as_bool", "as_slice", "as_u64"):
+        g = core.fn(FV + acc)
+        if g is None:
+            continue
+        ret = (core.S(g.get("ret_ty")) or "").replace("&'_ ", "&").replace("&'a ", "&")
+        m = re.match(r"core::option::Option<(.*)>$", ret)
+        inner = m.group(1) if m else ret
+        accessors[acc] = ("Option", ("Slice",) if inner.startswith("&[") else ("prim", inner.replace(" ", "")))
+    I = quote_intrinsics()
+    types = []
+    for base in ("Int", "String", "Float", "Boolean"):
+        level = [base, base + "!"]
+        types += level
+        for _ in range(2):
+            level = ["[%s]%s" % (t, s) for t in level for s in ("", "!")]
+            types += level
+    bad = None
+    n = 0
+    for t in types:
+        try:
+            decl = A.deref(A.Interp(C, I, max_steps=200000).call_fn(fd, [t]))
+            base = TS(["parameters", ".", "get", ("group", "Parenthesis", TS([("lit", "x")])), ".", "expect", ("group", "Parenthesis", TS([("lit", "m")]))])
+            expr = A.deref(A.Interp(C, I, max_steps=200000).call_fn(fe, [t, base]))
+            got_decl = parse_decl(decl)
+            got_expr = infer_expr(expr, accessors)
+        except A.Unsupported as e:
+            R.fail("r8", "unanalysable/%s" % t, C.loc(fd["sp"]), "abstract evaluation of the type mapping failed for `%s`: %s (fail closed)" % (t, e))
+            return
+        except A.PanicReached as e:
+            bad = bad or (t, "panics: %s" % e.what, "", "")
+            continue
+        except (ValueError, IndexError) as e:
+            R.fail("r8", "unanalysable/%s" % t, C.loc(fe["sp"]), "cannot type the generated tokens for `%s`: %s (fail closed)" % (t, e))
+            return
+        n += 1
+        want = spec_type(t)
+        if (got_decl != want or got_expr != want) and bad is None:
+            bad = (t, got_decl, got_expr, want)
+    R.floor("r8", "parameter types evaluated", n, 50)
+
+    def show(x):
+        if not isinstance(x, tuple):
+            return str(x)
+        return x[1] if x[0] == "prim" else "%s<%s>" % (x[0], show(x[1])) if len(x) > 1 else x[0]
+    R.check(bad is None, "r8", "declared-type-matches-conversion", C.loc(fd["sp"]),
+            "for a parameter of Trustfall type `%s` the stub declares `%s` and converts the value with an expression of type `%s`; the type "
+            "denotes `%s` - the generated `let x: T = ..` / function signature does not type-check (E0308)"
+            % (bad and bad[0], bad and show(bad[1]), bad and show(bad[2]), bad and show(bad[3])), {"types": n})
+
+
 def run(ctx, R):
     C = ctx.crate(facts.STUBGEN)
     core = ctx.core
@@ -505,5 +706,6 @@ def run(ctx, R):
             R.check(inner.replace(" ", "") == a[sname].replace(" ", ""), "r7", "scalar:%s" % sname, core.loc(g["sp"]) if g.get("sp") else "-",
                     "Trustfall type %s is declared as Rust type `%s` but converted with FieldValue::%s() -> %s: type mismatch in the stub"
                     % (sname, a[sname], acc, ret), {"rust_type": a[sname], "accessor": acc, "returns": ret})
+    parameter_type_table(ctx, R, C, core)
     R.units["helper_evaluations"] = ev.calls
     R.units["sites"] = len(table)
